@@ -660,6 +660,25 @@ pub fn check(a: &CheckArgs) -> i32 {
         path
     });
 
+    // one (unminimised) replay per further (oracle, signature) pair, so that every class listed in
+    // `violations_by_oracle_and_sig` can be reproduced
+    let known = simkit::load_known();
+    let mut seen_pairs: BTreeSet<(String, String)> = BTreeSet::new();
+    let mut extra_replays: Vec<Value> = vec![];
+    for (seed, v) in &g.violations {
+        if v.oracle.starts_with("c18.map.") || simkit::is_known(&known, v).is_some() {
+            continue;
+        }
+        if !seen_pairs.insert((v.oracle.clone(), v.sig.clone())) || seen_pairs.len() > 12 {
+            continue;
+        }
+        let name = format!("{seed}-{}", v.oracle.replace('.', "_"));
+        let plan = gen::plan_for(property, *seed);
+        let doc = json!({"engine": "dcsim", "property": property, "seed": seed, "violation": v, "plan": plan, "note": "unminimised plan = f(seed)"});
+        let path = simkit::write_replay_doc(property, &format!("{name}-{}", v.sig.replace([':', '<', '>', '='], "_")), &doc);
+        extra_replays.push(json!({"oracle": v.oracle, "sig": v.sig, "seed": seed, "replay": path}));
+    }
+
     let wall = t0.elapsed().as_secs_f64();
     let runs_per_hour = if batch_wall > 0.0 { g.runs as f64 * 3600.0 / batch_wall } else { 0.0 };
     let rule = match property {
@@ -697,6 +716,7 @@ pub fn check(a: &CheckArgs) -> i32 {
         "violations_by_oracle_and_sig": by_oracle,
         "new_violations": new_violations,
         "replays": replays,
+        "replay_per_oracle_and_sig": extra_replays,
     });
     if property == "C18" {
         coverage["forged_delivered_by_kind"] = json!(g.forged_by_kind);
